@@ -231,6 +231,24 @@ fn run_ctx<Ctx: Cx>(rep: &Report, ctxname: &'static str, n: usize, alpha: Alphab
                     continue;
                 }
                 bump(&mut cen, "fragment_explorations");
+                // the script decoder labels the same bytes on its own (key hashes through a constructor of
+                // their own): its labels are statements about the same executions
+                if let Ok(dec) = guard(|| miniscript::Miniscript::<Ctx::Key, Ctx>::decode_consensus(bitcoin::Script::from_bytes(&script))) {
+                    if let Ok(dec) = dec {
+                        let dl = ST::from_lib(&dec.ty);
+                        let bad = check_labels(&dl, &obs[0], &obs[1]);
+                        if !bad.is_empty() {
+                            rep.violation(Violation {
+                                key: format!("C06|decoded|{}|{}|lt={} seq={:#x}", ctxname, t.sexpr(), lt, seq),
+                                class: format!("decoded-type-label-false-{}-{}", ctxname, bad[0].split(':').next().unwrap_or("")),
+                                what: format!("the decoder types the script of {} as {} but: {}", ms, dl.letters(), bad.join("; ")),
+                                case: json!({"ctx": ctxname, "fragment": ms.to_string(), "script": hex(&script), "decoded_type": dl.letters()}),
+                            });
+                        } else {
+                            bump(&mut cen, "decoded_types_confirmed");
+                        }
+                    }
+                }
                 let bad = check_labels(&lib_lbl, &obs[0], &obs[1]);
                 if !bad.is_empty() {
                     rep.violation(Violation {
